@@ -104,4 +104,39 @@ theorem locOf_line_mono (inp : Bytes) {i j : Nat} (h : i ≤ j) : (locOf inp i).
   have := (hsub.filter (· == 10)).length_le
   omega
 
+theorem takeWhile_append_of_all {α} (p : α → Bool) (a b : List α) (h : ∀ x ∈ a, p x = true) :
+    (a ++ b).takeWhile p = a ++ b.takeWhile p := by
+  induction a with
+  | nil => rfl
+  | cons x xs ih =>
+    have hx : p x = true := h x (by simp)
+    simp only [List.cons_append, List.takeWhile_cons, hx, if_true]
+    rw [ih (fun y hy => h y (List.mem_cons_of_mem _ hy))]
+
+/-- within one line the column never decreases -/
+theorem locOf_col_mono (inp : Bytes) {i j : Nat} (h : i ≤ j) (hsame : (locOf inp i).1 = (locOf inp j).1) :
+    (locOf inp i).2 ≤ (locOf inp j).2 := by
+  unfold locOf at hsame ⊢
+  simp only at hsame ⊢
+  -- take j = take i ++ mid
+  have hsplit : inp.take j = inp.take i ++ (inp.drop i).take (j - i) := by
+    have : j = i + (j - i) := by omega
+    conv => lhs; rw [this]
+    exact List.take_add
+  rw [hsplit] at hsame ⊢
+  simp only [List.filter_append, List.length_append] at hsame
+  have hmid : ∀ b ∈ (inp.drop i).take (j - i), (b != 10) = true := by
+    intro b hb
+    have hz : ((List.take (j - i) (List.drop i inp)).filter (· == 10)).length = 0 := by omega
+    have hnil := List.eq_nil_of_length_eq_zero hz
+    by_cases hb10 : b = 10
+    · have : b ∈ (List.take (j - i) (List.drop i inp)).filter (· == 10) := by
+        simp only [List.mem_filter]; exact ⟨hb, by simp [hb10]⟩
+      rw [hnil] at this; simp at this
+    · simpa using hb10
+  rw [List.reverse_append, takeWhile_append_of_all _ _ _ (by
+    intro x hx; exact hmid x (List.mem_reverse.1 hx))]
+  simp only [List.map_append, List.sum_append]
+  omega
+
 end GoSQLXModel.Lex
